@@ -124,11 +124,28 @@ build_output = Fn(
     ensures=[
         C("err_is_loud", "res is Err ==> final(report).msgs() > old(report).msgs()", ["C03"]),
         C("output_well_formed", "res is Ok ==> res->Ok_0.wf()", ["C06"]),
+        C("no_two_items_share_a_bit", "res is Ok ==> items_disjoint(res->Ok_0.spans@)", ["C06"]),
+        C("every_bit_outside_the_items_is_zero", "res is Ok ==> set_bits_inside_items(res->Ok_0.v(), res->Ok_0.spans@)", ["C06"]),
     ],
     loops={1: Loop(invariant=[
         C("state", "output.wf() && overlap_checker.wf() && all_banks_defined(defs, 0)"),
         C("monotone", "report.msgs() >= old(report).msgs()"),
-    ])},
+        C("sized_items_are_checker_entries", "sized_items_stored(output.spans@, overlap_checker.view())"),
+        C("items_disjoint", "items_disjoint(output.spans@)"),
+        C("set_bits_inside_items", "set_bits_inside_items(output.v(), output.spans@)"),
+    ], body_start="        let ghost spans0 = output.spans@; let ghost view0 = overlap_checker.view(); let ghost chk0 = overlap_checker;",
+       body_end="""        proof {
+            lemma_stored_mono(view0, overlap_checker.view());
+            if output.spans@.len() > spans0.len() {
+                let sp = output.spans@[spans0.len() as int];
+                assert(output.spans@ =~= spans0.push(sp));
+                lemma_spans_cover_push(spans0, sp);
+                if sp.offset is Some && sp.size > 0 {
+                    lemma_inserted_is_stored(view0, overlap_checker.view(), sp.offset->0 as int, sp.size as int);
+                    lemma_new_item_disjoint(spans0, &chk0, sp.offset->0 as int, sp.size as int);
+                }
+            }
+        }""")},
     inserts=[
         Insert("            overlap_checker.check_and_insert(\n                report,\n\t\t\t\tast_instr.span,", "            proof { assume(pos + instr.encoding.size->0 <= usize::MAX); }\n", where="before", finding="D9h",
                why="finding guard: output position + item size overflows usize in OverlapChecker (known finding D9h)"),
